@@ -140,7 +140,7 @@ func Rotate(s string, shift int) string {
 	if shift == 0 {
 		return s
 	}
-	sLen := len(s)
+	sLen := utf8.RuneCountInString(s)
 	if sLen == 0 {
 		return s
 	}
